@@ -550,17 +550,35 @@ class Mod:
     __slots__ = ("mid", "shape", "traits", "src", "path", "blob", "out", "err", "rc")
 
 
-def make_modules(ctx, sc, fl, copies):
-    """`copies` variants of every shape (different id, different size) -> compiled + standalone expectations."""
+def _p_tiny(mid, n):
+    # a very short session (hammer stage): a dozen lines, one mutable global
+    return """
+let mut T: int = %(seed)d
+fn main() -> int {
+    let mut i: int = 0
+    while (< i %(n)d) {
+        set T (%% (+ (* T 17) i) 9973)
+        (println (+ "%(id)s:t " (+ (int_to_string i) (+ " " (int_to_string T)))))
+        set i (+ i 1)
+    }
+    return 0
+}
+shadow main { assert true }
+""" % {"id": mid, "n": n, "seed": sum(mid.encode())}
+
+
+def make_modules(ctx, sc, fl, copies, tiny=False):
+    """`copies` variants of every shape (different id, different size) -> compiled + standalone expectations.
+    tiny=True: eight very short modules H00..H07 for the hammer stage instead."""
     mods = []
     k = 0
     for c in range(copies):
-        for fn, n, traits in SHAPES:
+        for fn, n, traits in ([(_p_tiny, 6 + 3 * i, {"glob"}) for i in range(8)] if tiny else SHAPES):
             m = Mod()
-            m.mid = "M%02d" % k
+            m.mid = ("H%02d" if tiny else "M%02d") % k
             m.shape = fn.__name__[3:]
             m.traits = traits
-            m.src = fn(m.mid, n + 37 * c)
+            m.src = fn(m.mid, n + (0 if tiny else 37 * c))
             mods.append(m)
             k += 1
     env = {"TSAN_OPTIONS": "halt_on_error=0:exitcode=0:log_path=%s" % os.path.join(sc.sub("tsan-standalone"), "t")}
@@ -588,7 +606,7 @@ def make_modules(ctx, sc, fl, copies):
         lines = m.out.split(b"\n")
         ctx.require(m.out.endswith(b"\n") and all(l.startswith(m.mid.encode() + b":") for l in lines[:-1]),
                     "module %s prints a line without its id" % m.mid)
-        ctx.require(len(lines) > 150, "module %s prints only %d lines" % (m.mid, len(lines)))
+        ctx.require(tiny or len(lines) > 150, "module %s prints only %d lines" % (m.mid, len(lines)))
         if "big" in m.traits:
             ctx.require(len(m.out) >= 65536, "module %s is meant to print >= 64 KiB, printed %d" % (m.mid, len(m.out)))
         if "err" in m.traits:
@@ -732,6 +750,8 @@ class Stats:
         self.reruns = 0
         self.mismatches = 0
         self.client_tsan = 0
+        self.hammer_sessions = 0
+        self.tiny = []
 
 
 def run_wave(ctx, st, dm, fl, client_bin, picks, mode, rng, n_bin, where, sc):
@@ -795,6 +815,48 @@ def _account_wave(ctx, st, ws, pys, reps, bins, xres, all_ids, where, daemon_ali
     return ok, trouble, conc
 
 
+HAMMER_THREADS = 12
+
+
+def hammer(ctx, st, dm, rng, where, per_thread):
+    """Dense arrivals: HAMMER_THREADS clients issue very short sessions back to back on the warm daemon, so that connections
+    are accepted while other sessions are just finishing (descriptor numbers are recycled at once).  Same oracle as the
+    waves: every session equals standalone, no foreign line.  Returns client-side trouble (watchdog / connect)."""
+    tiny = st.tiny
+    all_ids = [m.mid for m in tiny]
+    plan = [[rng.choice(tiny) for _ in range(per_thread)] for _ in range(HAMMER_THREADS)]
+    results = [[] for _ in range(HAMMER_THREADS)]
+
+    def worker(w):
+        for m in plan[w]:
+            results[w].append((m, vc.exec_module(dm.vmd_dir, m.blob, 60.0)))
+            if results[w][-1][1].exc and not dm.alive():
+                break
+
+    ths = [threading.Thread(target=worker, args=(w,), daemon=True) for w in range(HAMMER_THREADS)]
+    for t in ths:
+        t.start()
+    for t in ths:
+        t.join(600)
+    trouble = []
+    alive = dm.alive()
+    with _VLOCK:
+        for w in range(HAMMER_THREADS):
+            for m, r in results[w]:
+                if r.exc or r.timeout:
+                    trouble.append("hammer %s: exc=%s timeout=%s" % (m.mid, r.exc, r.timeout))
+                    if alive:
+                        continue
+                st.sessions += 1
+                st.sessions_py += 1
+                st.hammer_sessions += 1
+                st.bytes += r.nbytes
+                detail = "frames=%d eof=%s reset=%s partial=%d" % (len(r.frames), r.eof, r.reset, r.partial)
+                if not compare(ctx, m, "py", r.out, r.err_text(), r.exit_code, all_ids, where, detail):
+                    st.mismatches += 1
+    return trouble
+
+
 def run_round(ctx, st, fl, client_bin, sc, rno, picks, mode, yield_on, n_bin, lane):
     """Fresh daemon; wave 1 = `mode`, wave 2 (warm daemon, same multiset reshuffled) = the other mode."""
     kind = "yield" if yield_on else "plain"
@@ -835,6 +897,12 @@ def run_round(ctx, st, fl, client_bin, sc, rno, picks, mode, yield_on, n_bin, la
                 if not dm.alive():
                     died = "rc=%s" % dm.returncode()
                     break
+            if not died and st.tiny:
+                troubles.extend(hammer(ctx, st, dm, ctx.rng("hammer", rno, kind, attempt),
+                                       "round %d (%s), hammer stage: %d clients issuing short sessions back to back" % (rno, kind, HAMMER_THREADS),
+                                       ctx.n(40, 80)))
+                if not dm.alive():
+                    died = "rc=%s" % dm.returncode()
             stuck = None
             if troubles and not died and dm.alive() and vc.proc_idle(dm.pid):
                 # Not a slow machine: daemon and co-processes consume no CPU and all their threads sleep, yet a complete request is unanswered.
@@ -907,6 +975,7 @@ def _run(ctx, fl, sc):
     shutil.copy2(fl.nano_vm, client_bin)
 
     st = Stats()
+    st.tiny = make_modules(ctx, sc, fl, 1, tiny=True)
     rounds = ctx.n(6, 60)
     sizes = [2, 8, 16, 32, 32, 24] if ctx.quick() else [2, 8, 16, 32, 64, 64, 48, 64, 24, 64]
     plans = []
@@ -966,6 +1035,7 @@ def _run(ctx, fl, sc):
         "rule": "distinct (module multiset, release mode, yield setting) waves in which the daemon itself reported >= 2 LOAD_EXEC "
                 "sessions in service at one instant (STATUS active_clients minus the STATUS connection minus held connections "
                 "not yet released); waves without observed concurrency are not counted",
+        "hammer_sessions_back_to_back": st.hammer_sessions, "hammer_clients": HAMMER_THREADS,
         "sessions": st.sessions, "sessions_vmd_client_py": st.sessions_py, "sessions_nano_vm_daemon_binary": st.sessions_bin,
         "rounds": rounds, "round_kinds": ["plain", "yield(NLVERIF_YIELD_US=%d)" % YIELD_US], "waves": st.waves,
         "daemon_instances": st.waves // 2, "reruns_after_client_trouble": st.reruns,
